@@ -1,6 +1,7 @@
 """Per-property check plans: which specification instances are model-checked, which
 TLC-enumerated calls are replayed into the library, which recorded campaigns are validated."""
 import json
+import time
 import os
 
 import drivers
@@ -510,8 +511,45 @@ def plan_stages(run):
                     "Update!Agg / PLc / PLSumQ / PairC / TieSize"}
 
 
+EXTRAS_CFG = """SPECIFICATION Spec
+CONSTANTS
+  FloatRankUsesIndex = FALSE
+  TauZeroFallsBack = FALSE
+  MaxLen = %d
+INVARIANT Inv_ArgSort
+INVARIANT Inv_RankData
+INVARIANT Inv_RankOfIsReversedRankData
+INVARIANT Inv_RankOfConsistent
+INVARIANT Inv_UnwindRoundTrip
+INVARIANT Inv_Ladder
+INVARIANT Inv_Transpose
+"""
+
+
+def plan_extras(run):
+    """Not a listed property: the rest of the surface (spec/Extras.tla) - text forms, team-rating objects, module-level
+    helpers, the registry, create_rating's error classes; and the helper rules model-checked against their definitions."""
+    import extras
+
+    t0 = time.time()
+    n = q(run, 4, 6)
+    rc, out = tlc.run_tlc("MC_Extras", EXTRAS_CFG % n, run.wd, workers=tlc.NCPU, heap="4g")
+    if rc != 0 or "No error has been found" not in out:
+        raise MachineryError("MC_Extras failed (rc=%d)\n%s" % (rc, out[-2500:]))
+    gen, dist = tlc.tlc_stats(out)
+    run.states += dist
+    run.transitions += gen
+    run.mc_runs.append({"module": "MC_Extras", "instance": "vectors<=%d" % n, "distinct_states": dist, "states_generated": gen,
+                        "wall_s": round(time.time() - t0, 1), "exhaustive": True})
+    campaign(run, "extras", {"X"}, lambda s, r: extras.extras_campaign(s, r))
+    return {"rule": "repr/str templates, team-rating fields / == / hash, _unary_minus, _arg_sort, _rank_data, _matrix_transpose, _unwind (and its "
+                    "round trip), _ladder_pairs, phi_minor, phi_major_inverse, the default gamma, MODELS, create_rating's exception classes - "
+                    "each against the rule of Extras.tla; the rules against their definitions in MC_Extras"}
+
+
 PLANS = {
     "stages": plan_stages,
+    "extras": plan_extras,
     "C01": plan_C01,
     "C02": plan_C02,
     "C05": plan_C05,
